@@ -25,6 +25,7 @@ def run(chk):
     TR.direct_sum(chk, src)
     TR.compress_sweep(chk, src)
     TR.compress_precondition(chk, src)
+    TR.must_update(chk, src)
     if chk.tier == "thorough":
         TR.environment_networks(chk, src, topologies=("binary", "star", "two"))
         TR.state_networks(chk, src, topologies=("binary", "star", "two"), which=("merge", "apply", "todense_s", "expectation1", "rdm1", "rdm2"))
